@@ -144,6 +144,10 @@ def check(ctx: Ctx) -> None:
     check_input_immutability(ctx, 'C18.f', public_api(ctx.model, [RS, ZC, SRS, DMRS], constructors=True), floor=8)
     _check_inputs_untouched(ctx)
     _check_ls_identity(ctx)
+    from ..idioms import check_init_order
+    check_init_order(ctx, 'C18.i', [SRS, DMRS, 'pyphysim/reference_signals/channel_estimation.py'], floor=2)
+    from ..idioms import check_no_persistent_buffers
+    check_no_persistent_buffers(ctx, 'C18.j', [SRS, DMRS, 'pyphysim/reference_signals/channel_estimation.py'], floor=5)
     from ..idioms import check_flag_tests_agree
     check_flag_tests_agree(ctx, 'C18.g', [RS, ZC, SRS, DMRS, 'pyphysim/reference_signals/channel_estimation.py'], floor=1)
     _check_extension(ctx)
